@@ -444,6 +444,8 @@ class PoolGen:
             self.emit({"op": "Deposit", "acct": r.choice(ACCTS), "amt": r.choice([10, 100, 1000])})
         if self.race:
             self.startup_burst()
+        if self.cfg.get("onewallet"):
+            self.shared_wallet_bursts()
         if self.cfg.get("staircase") and r.random() < 0.7:
             self.staircase()
         if self.cfg.get("unitsweep") is not None:
@@ -452,6 +454,25 @@ class PoolGen:
             self.step()
             if self.cfg.get("longsleep") and self.conf["unit"] == "1" and self.now < 50000 and r.random() < 0.02:
                 self.sleep(100000)     # a very large elapsed time
+
+    def shared_wallet_bursts(self):
+        """every node spends from and earns into ONE wallet; all of them send keep-alives reporting all the others at the
+        same time while credit is booked to the wallet directly: as many writers as possible on one balance record"""
+        r = self.r
+        for n in NODES:
+            self.emit({"op": "AddAccountNode", "acct": "a1", "id": n})
+        for rnd in range(4):
+            saved, self.ops = self.ops, []
+            for n in sorted(self.connected):
+                peers = [m for m in sorted(self.connected) if m != n]
+                self.emit(self.signed({"op": "Update", "conn": self.conn_for(n), "peers": peers, "block": rnd + 2}, n))
+            reqs, self.ops = self.ops, saved
+            for op in [o for o in reqs if o["op"] == "Open"]:
+                self.emit(op)
+            reqs = [o for o in reqs if o["op"] != "Open"]
+            for _ in range(3):
+                reqs.append({"op": "AddAccountBalance", "acct": "a1", "amt": r.choice([1, 3, 7])})
+            self.emit({"op": "Burst", "reqs": reqs})
 
     def ladder(self):
         """keep-alives after exactly 1, 2, 3, 5, 9, 16, 30 s: with the unit sweep, elapsed x price lands on both
